@@ -335,17 +335,20 @@ def search(rng, bad_cases):
 
 
 ENABLED = True
-PARTIAL = ["C21_partial", "C21_full_refuted", "C21_dest_absent_refuted", "C21_path_ns_prefix_refuted", "C21_arg_path_string_refuted",
+PARTIAL = ["C21_partial", "C21_full_refuted", "C21_arg_path_string_refuted",
            "C21_arg_path_slash_refuted", "C21_sole_struct_refuted", "C21_arg0ns_untyped_refuted"]
 LEVEL = "proof"
 LEVEL_TEXT = ("Theorems in coq/theories/Properties/C21.v over a model of MatchRule::matches in code order: for every rule, every message "
-              "(of the modelled shape) and every name-ownership relation, outside five explicitly described deviation classes the code's "
+              "(of the modelled shape) and every name-ownership relation, outside three explicitly described deviation classes the code's "
               "verdict equals the D-Bus specification's match-rule semantics (C21_partial); in the documented exemption (well-known "
               "sender / destination) no message the specification delivers is dropped (C21_exempt_no_false_negative). The full statement "
-              "is refuted on the pinned tree by six machine-checked counterexamples, each confirmed on the real code (known findings). "
+              "is still refuted by four machine-checked counterexamples, each confirmed on the real code (known findings); two earlier "
+              "classes (destination vs. a message without destination, path_namespace as string prefix) were repaired by fix 8cf9b673 and "
+              "are now inside the theorem. "
               "The model is tied to the code by differential runs on builder-built rules and near-miss messages; the specification "
-              "oracle is evaluated on the implementation's verdicts. Partial: the theorem excludes the five known classes.")
+              "oracle is evaluated on the implementation's verdicts. Partial: the theorem excludes the three known classes.")
 LEVEL_NOTE = ("Partial. Trusted: Coq kernel; the hand-written model (C21/Model.v) incl. the message abstraction and the body encoding of nine "
-              "argument shapes; C10's validator model; harness hmatch. Known findings: destination rule matches a message without "
-              "destination; path_namespace is a string prefix test; argNpath is equality on object paths only (no strings, no trailing-slash "
-              "rule); a single struct argument is flattened into arg0, arg1, ...; arg0namespace reads the body bytes without checking the type.")
+              "argument shapes; C10's validator model; harness hmatch. Known findings: argNpath is equality on object paths only (no strings, "
+              "no trailing-slash rule); a single struct argument is flattened into arg0, arg1, ...; arg0namespace reads the body bytes "
+              "without checking the type. Fixed by 8cf9b673 (witnesses kept, must pass): destination vs. absent destination, "
+              "path_namespace string prefix.")
